@@ -319,3 +319,39 @@ def bare_type(t):
     """type token without scale/offset (what the binary model needs)"""
     p = t.split("/")
     return t if p[0] in ("F", "D") else "%s/%s/%s" % (p[0], p[1], p[2])
+
+
+# ---------------------------------------------------------------- lexical and structural variants of the XML
+
+E57_NS = "http://www.astm.org/COMMIT/E57/2010-e57-v1.0"
+
+
+def tree_variant(xml, rng):
+    """variants that change the document tree but not its meaning: comments and processing instructions
+    between elements (never inside a leaf), and the E57 namespace bound to a prefix instead of being the
+    default namespace.  Returns (bytes, tags of the variants applied)."""
+    import re
+    txt = xml.decode()
+    tags = []
+    if rng.chance(1, 3):
+        tags.append("prefix")
+        pre = rng.choice(["e57", "e", "E57_ns", "a.b-c"])
+        txt = re.sub(r"<(/?)([A-Za-z_][\w.-]*)(?=[\s>/])", lambda m: "<%s%s:%s" % (m.group(1), pre, m.group(2)), txt)
+        txt = txt.replace(' xmlns="%s"' % E57_NS, ' xmlns:%s="%s"' % (pre, E57_NS))
+    if rng.chance(1, 2):
+        tags.append("misc")
+        parts = txt.split(">\n<")
+        out = [parts[0]]
+        for k, part in enumerate(parts[1:]):
+            c = rng.below(8)
+            if c == 0:
+                out.append(">\n<!-- %s -->\n<" % rng.choice(["note", "", "a < b & c", "fileOffset=\"7\"", "<points>"]))
+            elif c == 1:
+                out.append(">\n<?%s?>\n<" % rng.choice(["proc", "target some data", "x-y a=\"1\""]))
+            elif c == 2 and k > 0:
+                out.append("><!--c--><")
+            else:
+                out.append(">\n<")
+            out.append(part)
+        txt = "".join(out)
+    return txt.encode(), tags
